@@ -127,6 +127,12 @@ def decryptDefective := decryptV false
 def encrypt (sealF : Bytes → Bytes → Bytes) (iv : Bytes) (plain : Bytes) : Bytes :=
   header ++ b64Encode iv ++ [splitter] ++ b64Encode (sealF iv plain)
 
+/-- the nonce a Floodgate blob carries: Base64 text between the header and the first splitter -/
+def ivOf (s : Bytes) : Option Bytes :=
+  match cutAt splitter (s.drop header.length) with
+  | none => none
+  | some (ivB64, _) => b64Decode ivB64
+
 /-! ## strings.Split, strconv -/
 
 /-- `strings.Split(s, string(sep))` for a one-byte separator -/
